@@ -196,7 +196,7 @@ func runC15(c *fw.Ctx) {
 		{Kind: "Compose", Bucket: "b", Name: "d1", Srcs: []GSrc{{Name: "d4"}, {Name: "s1"}}, Meta: dmeta},
 		{Kind: "Copy", Bucket: "b", Name: "d4", DstBucket: "b", DstName: "e"},
 	}
-	depth := 3
+	depth := 4
 	if c.Thorough() {
 		depth = 5
 	}
